@@ -5,6 +5,7 @@ package batchresource
 // C14 correspondence harness. One case = one pod.
 //
 // input  : mode qos cfs prev ratio n  then n records (rcf rc lcf lc rmf rm lmf lm)
+//          then optionally amode and, for amode 2 / 3, n records (present rcf rc lcf lc rmf rm lmf lm)
 //   mode  0 runtime-proxy request, 1 NRI request, 2 reconciler request (from the pod object)
 //   qos   0 unmarked, 1 label BE, 2 label LS, 3 label LSR, 4 annotation-only BE, 5 label BE +
 //         annotation LS, 6 label "be" (unknown name), 7 label LS + annotation BE
@@ -16,6 +17,12 @@ package batchresource
 //   prev  same codes: an earlier node-meta update seen by the same rule (ratio is the current one)
 //   per container: batch-cpu request (flag,value), batch-cpu limit, batch-memory request,
 //         batch-memory limit; flag 0 = the resource name is not declared
+//   amode how the pod object reached the store (absent = 0):
+//         0 created and admitted by the real webhook (which writes the extended-resource-spec annotation)
+//         1 webhook bypassed (failurePolicy Ignore / feature gate), no annotation
+//         2 webhook bypassed, the pod carries the FOREIGN / STALE extended-resource-spec annotation given by
+//           the second record list (entry for container i iff present != 0; an entry may name no resource)
+//         3 created with that foreign annotation and admitted by the real webhook (which rewrites it)
 // observable: 6 integers for the pod then 6 per container in spec order:
 //   sharesSet shares quotaSet quota memSet mem   (xSet = 0: the hook left the field untouched)
 //
@@ -52,8 +59,9 @@ import (
 )
 
 const (
-	vtC14Hdr = 6
-	vtC14Rec = 8
+	vtC14Hdr  = 6
+	vtC14Rec  = 8
+	vtC14FRec = 9
 )
 
 func vtC14Name(i int) string { return fmt.Sprintf("c%02d", i) }
@@ -108,6 +116,50 @@ func vtC14Pod(qos int64, n int, recs []int64) *corev1.Pod {
 
 // vtC14Webhook sends the pod through the real mutating admission handler (Create) and returns
 // the pod as the API server would store it (patch applied).
+// vtC14Foreign puts an extended-resource-spec annotation on the pod that was NOT derived from its spec by the
+// webhook: entry for container i iff recs[i*9] != 0, with the amounts of the following 8 integers.
+func vtC14Foreign(pod *corev1.Pod, n int, recs []int64) bool {
+	spec := &apiext.ExtendedResourceSpec{}
+	for i := 0; i < n; i++ {
+		r := recs[i*vtC14FRec : (i+1)*vtC14FRec]
+		if r[0] == 0 {
+			continue
+		}
+		e := apiext.ExtendedResourceContainerSpec{}
+		set := func(l *corev1.ResourceList, name corev1.ResourceName, flag, v int64) {
+			if flag == 0 {
+				return
+			}
+			if *l == nil {
+				*l = corev1.ResourceList{}
+			}
+			(*l)[name] = *resource.NewQuantity(v, resource.DecimalSI)
+		}
+		set(&e.Requests, apiext.BatchCPU, r[1], r[2])
+		set(&e.Limits, apiext.BatchCPU, r[3], r[4])
+		set(&e.Requests, apiext.BatchMemory, r[5], r[6])
+		set(&e.Limits, apiext.BatchMemory, r[7], r[8])
+		if spec.Containers == nil {
+			spec.Containers = map[string]apiext.ExtendedResourceContainerSpec{}
+		}
+		spec.Containers[vtC14Name(i)] = e
+	}
+	return apiext.SetExtendedResourceSpec(pod, spec) == nil
+}
+
+// vtC14Bypass returns the pod as the API server stores it when the webhook is not called.
+func vtC14Bypass(pod *corev1.Pod) (*corev1.Pod, bool) {
+	raw, err := json.Marshal(pod)
+	if err != nil {
+		return nil, false
+	}
+	stored := &corev1.Pod{}
+	if err := json.Unmarshal(raw, stored); err != nil {
+		return nil, false
+	}
+	return stored, true
+}
+
 func vtC14Webhook(pod *corev1.Pod) (*corev1.Pod, bool) {
 	sch := runtime.NewScheme()
 	_ = corev1.AddToScheme(sch)
@@ -199,7 +251,24 @@ func vtC14Res(r *protocol.Resources) []int64 {
 
 func vtC14Exec(in []int64) []int64 {
 	mode, qos, cfs, prev, ratio, n := in[0], in[1], in[2], in[3], in[4], int(in[5])
-	pod, ok := vtC14Webhook(vtC14Pod(qos, n, in[vtC14Hdr:]))
+	rest := in[vtC14Hdr+n*vtC14Rec:]
+	amode := int64(0)
+	if len(rest) > 0 {
+		amode = rest[0]
+	}
+	raw := vtC14Pod(qos, n, in[vtC14Hdr:])
+	if amode == 2 || amode == 3 {
+		if !vtC14Foreign(raw, n, rest[1:]) {
+			return []int64{-4}
+		}
+	}
+	var pod *corev1.Pod
+	var ok bool
+	if amode == 1 || amode == 2 {
+		pod, ok = vtC14Bypass(raw)
+	} else {
+		pod, ok = vtC14Webhook(raw)
+	}
 	if !ok {
 		return []int64{-5}
 	}
@@ -298,8 +367,11 @@ func vtC14Amount(r *rand.Rand, style string, cap int64) int64 {
 }
 
 func vtC14Gen(r *rand.Rand, i int) (string, []int64) {
-	style := []string{"plain", "plain", "plain", "tiny", "huge", "negative", "sparse", "sparse", "sharesmax"}[r.Intn(9)]
+	style := []string{"plain", "plain", "plain", "tiny", "huge", "negative", "sparse", "sparse", "sharesmax", "stale", "stale"}[r.Intn(11)]
 	mode := int64(r.Intn(3))
+	if style == "stale" && r.Intn(5) < 2 {
+		mode = 2 // the reconciler is the builder that sees both the pod spec and the annotation
+	}
 	qos := int64(1)
 	if r.Intn(4) == 0 {
 		qos = int64(r.Intn(8))
@@ -382,6 +454,69 @@ func vtC14Gen(r *rand.Rand, i int) (string, []int64) {
 			limC, limM = reqC, reqM
 		}
 		in = append(in, vtB(pres[0]), reqC, vtB(pres[1]), limC, vtB(pres[2]), reqM, vtB(pres[3]), limM)
+	}
+	// how the pod reached the store: usually through the webhook; "stale" pods bypassed it and carry a
+	// foreign extended-resource-spec annotation (or were created with one that the webhook rewrites)
+	amode := int64(0)
+	if style == "stale" {
+		amode = 2
+		if r.Intn(5) == 0 {
+			amode = 3
+		}
+	} else if r.Intn(4) == 0 {
+		amode = int64(1 + r.Intn(3))
+	} else if r.Intn(4) == 0 {
+		return style, in // the format without the trailing amode stays exercised
+	}
+	in = append(in, amode)
+	if amode == 2 || amode == 3 {
+		how := r.Intn(6) // how the foreign amounts relate to the declared ones
+		allPresent := r.Intn(5) < 3
+		clampTo := func(v, cap int64) int64 {
+			if v > cap {
+				return cap
+			}
+			return v
+		}
+		for c := 0; c < n; c++ {
+			d := in[vtC14Hdr+c*vtC14Rec : vtC14Hdr+(c+1)*vtC14Rec]
+			src := d
+			if how == 4 && n > 1 { // the annotation of another template revision: entries shifted by one container
+				o := (c + 1) % n
+				src = in[vtC14Hdr+o*vtC14Rec : vtC14Hdr+(o+1)*vtC14Rec]
+			}
+			e := make([]int64, vtC14Rec)
+			copy(e, src)
+			switch how {
+			case 0: // smaller amounts (an older revision)
+				div := int64(2 + r.Intn(3))
+				e[1], e[3], e[5], e[7] = e[1]/div, e[3]/div, e[5]/div, e[7]/div
+			case 1: // larger amounts
+				e[1], e[3] = clampTo(e[1]*2, cpuCap), clampTo(e[3]*2, cpuCap)
+				e[5], e[7] = clampTo(e[5]*2, memCap), clampTo(e[7]*2, memCap)
+			case 2: // unrelated amounts and presence
+				st := []string{"plain", "tiny", "negative", "huge"}[r.Intn(4)]
+				for k := 0; k < 4; k++ {
+					e[2*k] = vtB(r.Intn(4) != 0)
+				}
+				e[1], e[3] = vtC14Amount(r, st, cpuCap), vtC14Amount(r, st, cpuCap)
+				e[5], e[7] = vtC14Amount(r, st, memCap), vtC14Amount(r, st, memCap)
+			case 3: // identical to the spec (hand-written but in sync)
+			case 5: // limits dropped or zeroed in the annotation
+				if r.Intn(2) == 0 {
+					e[2], e[6] = 0, 0
+				} else {
+					e[3], e[7] = 0, 0
+				}
+			}
+			present := allPresent || r.Intn(10) < 7
+			if r.Intn(25) == 0 { // an entry that names no resource at all ("c00": {})
+				present = true
+				e[0], e[2], e[4], e[6] = 0, 0, 0, 0
+			}
+			in = append(in, vtB(present))
+			in = append(in, e...)
+		}
 	}
 	return style, in
 }
